@@ -5,6 +5,126 @@ From Coq Require Import ZifyBool.
 From Verif Require Import Base.Prelude Model.C37 Model.C04 Proofs.C04.
 Local Open Scope Z_scope.
 
+Section Len.
+  Context {V : Type}.
+  Notation arr := (arr V).
+  Notation blk := (blk V).
+  Notation st := (st V).
+  Variable size : nat.
+
+  (** [sort.Stable] on at most 20 blocks is the insertion sort *)
+  Lemma sort_blocks_small (l : list blk) : (length l <= 20)%nat -> sort_blocks l = isort l.
+  Proof. intro H. unfold sort_blocks. destruct (length l <=? 20)%nat eqn:E; [reflexivity|]. apply Nat.leb_gt in E. lia. Qed.
+
+  Lemma ins_rev_length (x : blk) : forall rp, length (ins_rev x rp) = S (length rp).
+  Proof. induction rp as [|y r IH]; [reflexivity|]. cbn [ins_rev]. destruct (less x y); cbn [length]; [rewrite IH|]; reflexivity. Qed.
+
+  Lemma isort_length (l : list blk) : length (isort l) = length l.
+  Proof.
+    unfold isort. rewrite rev_length.
+    assert (H : forall (l acc : list blk), length (fold_left (fun rp x => ins_rev x rp) l acc) = (length l + length acc)%nat).
+    { clear l. induction l as [|x r IH]; intro acc; cbn [fold_left length]; [reflexivity|].
+      rewrite IH, ins_rev_length. lia. }
+    rewrite H. cbn. lia.
+  Qed.
+
+  Lemma drop_read_length : forall bs : list blk, (length (drop_read bs) <= length bs)%nat.
+  Proof. induction bs as [|b r IH]; cbn [drop_read]; [lia|]. destruct (is_read b); cbn [length]; lia. Qed.
+
+  Lemma dedup_pass_length : forall (bs : list blk) mn mx (mv : arr),
+    length (fst (fst (dedup_pass bs mn mx mv))) = length bs.
+  Proof.
+    induction bs as [|b r IH]; intros mn mx mv; cbn [dedup_pass]; [reflexivity|].
+    destruct (negb (overlaps b mn mx) || is_read b).
+    - specialize (IH mn mx mv). destruct (dedup_pass r mn mx mv) as [[r' mx'] mv']. cbn [fst length] in *. lia.
+    - match goal with |- context [dedup_pass r mn ?a ?c] =>
+        specialize (IH mn a c); destruct (dedup_pass r mn a c) as [[r' mx'] mv'] end.
+      cbn [fst length] in *. lia.
+  Qed.
+
+  Lemma dedup_loop_length : forall fuel (bs : list blk) (mv : arr) bs' mv',
+    dedup_loop fuel size bs mv = Some (bs', mv') -> (length bs' <= length bs)%nat.
+  Proof.
+    induction fuel as [|f IH]; intros bs mv bs' mv'; cbn [dedup_loop].
+    - destruct (_ && _); [discriminate|]. intros [= <- <-]. lia.
+    - destruct (_ && _); [|intros [= <- <-]; lia].
+      pose proof (drop_read_length bs) as Hd.
+      destruct (drop_read bs) as [|first r] eqn:E; [intros [= <- <-]; cbn; lia|].
+      destruct (window _ _) as [mn mx].
+      pose proof (dedup_pass_length (first :: r) mn mx mv) as Hp.
+      destruct (dedup_pass (first :: r) mn mx mv) as [[bs2 mx2] mv2]. cbn [fst] in Hp.
+      intro H. apply IH in H. lia.
+  Qed.
+
+  Lemma pass_full_length : forall (bs merged m r : list blk),
+    pass_full size bs merged = (m, r) -> (length r <= length bs)%nat.
+  Proof.
+    induction bs as [|b r0 IH]; intros merged m r; cbn [pass_full].
+    - intros [= <- <-]. lia.
+    - destruct (is_read b); [intro H; apply IH in H; cbn [length]; lia|].
+      destruct (length (b_vals b) <? size)%nat; [intros [= <- <-]; lia|].
+      intro H; apply IH in H; cbn [length]; lia.
+  Qed.
+
+  Lemma decode_rest_length : forall (bs : list blk) (mv : arr) r mv',
+    decode_rest size bs mv = (r, mv') -> (length r <= length bs)%nat.
+  Proof.
+    induction bs as [|b r0 IH]; intros mv r mv'; cbn [decode_rest].
+    - intros [= <- <-]. lia.
+    - destruct (length mv <? size)%nat; [|intros [= <- <-]; lia].
+      destruct (is_read b); intro H; apply IH in H; cbn [length]; lia.
+  Qed.
+
+  Lemma combine_length fuel fast dedup (s s' : st) :
+    combine fuel size fast dedup s = Some s' -> (length (s_blocks s') <= length (s_blocks s))%nat.
+  Proof.
+    unfold combine. destruct dedup.
+    - destruct (dedup_loop fuel size (s_blocks s) (s_mv s)) as [[bs mv]|] eqn:E; [|discriminate].
+      apply dedup_loop_length in E. destruct (chunk size [] mv). intros [= <-]. exact E.
+    - destruct (pass_full size (s_blocks s) (s_merged s)) as [m1 r1] eqn:E1. apply pass_full_length in E1.
+      set (p2 := if fast then (m1 ++ unread r1, []) else (m1, r1)).
+      assert (H2 : (length (snd p2) <= length r1)%nat) by (subst p2; destruct fast; cbn; lia).
+      destruct p2 as [m2 r2]. cbn [snd] in H2.
+      set (p3 := match r2 with [b] => (if is_read b then m2 else m2 ++ [b], []) | _ => (m2, r2) end).
+      assert (H3 : (length (snd p3) <= length r2)%nat) by (subst p3; destruct r2 as [|b [|b2 r2']]; cbn; lia).
+      destruct p3 as [m3 r3]. cbn [snd] in H3.
+      destruct (decode_rest size r3 (s_mv s)) as [r4 mv] eqn:E4. apply decode_rest_length in E4.
+      destruct (chunk size m3 mv). intros [= <-]. cbn [s_blocks]. lia.
+  Qed.
+
+  Lemma merge_length fuel fast (s s' : st) : (length (s_blocks s) <= 20)%nat ->
+    merge fuel size fast s = Some s' -> (length (s_blocks s') <= length (s_blocks s))%nat.
+  Proof.
+    intro Hs. unfold merge. destruct (_ && _ && _); [intros [= <-]; lia|].
+    intro H. apply combine_length in H. cbn [s_blocks] in H.
+    rewrite sort_blocks_small, isort_length in H by exact Hs. exact H.
+  Qed.
+
+  Lemma next_length fuel fast (s s' : st) : (length (s_blocks s) <= 20)%nat ->
+    next fuel size fast s = Some (Some s') -> (length (s_blocks s') <= length (s_blocks s))%nat.
+  Proof.
+    intros Hs. unfold next.
+    set (s1 := match s_merged s with [] => s | _ :: m => mkst (s_blocks s) m (s_mv s) end).
+    assert (H1 : s_blocks s1 = s_blocks s) by (subst s1; destruct (s_merged s); reflexivity).
+    rewrite <- H1 in *. clearbody s1.
+    assert (Hstep2 : forall s2, (length (s_blocks s2) <= length (s_blocks s1))%nat ->
+      (if nonempty (s_blocks s2)
+       then match merge fuel size fast s2 with
+            | None => None
+            | Some s3 => if nonempty (s_merged s3) || nonempty (s_mv s3) then Some (Some s3) else Some None
+            end
+       else Some None) = Some (Some s') -> (length (s_blocks s') <= length (s_blocks s1))%nat).
+    { intros s2 H2. destruct (nonempty (s_blocks s2)); [|discriminate].
+      destruct (merge fuel size fast s2) as [s3|] eqn:E; [|discriminate].
+      apply merge_length in E; [|lia]. destruct (_ || _); [|discriminate]. intros [= <-]. lia. }
+    destruct (nonempty (s_merged s1)); [intros [= <-]; lia|].
+    destruct (nonempty (s_mv s1)); [|apply Hstep2; lia].
+    destruct (merge fuel size fast s1) as [s3|] eqn:E; [|discriminate].
+    apply merge_length in E; [|exact Hs].
+    destruct (_ || _); [intros [= <-]; exact E|apply Hstep2; exact E].
+  Qed.
+End Len.
+
 Section Size.
   Context {V : Type}.
   Notation arr := (arr V).
@@ -31,11 +151,11 @@ Section Size.
     rewrite IH, ins_rev_In. cbn [In]. intuition.
   Qed.
 
-  Lemma sort_blocks_In (l : list blk) b : In b (sort_blocks l) <-> In b l.
-  Proof. unfold sort_blocks. rewrite <- in_rev, sort_fold_In. cbn. intuition. Qed.
+  Lemma isort_In (l : list blk) b : In b (isort l) <-> In b l.
+  Proof. unfold isort. rewrite <- in_rev, sort_fold_In. cbn. intuition. Qed.
 
-  Lemma sort_blocks_Forall (P : blk -> Prop) l : Forall P l -> Forall P (sort_blocks l).
-  Proof. rewrite !Forall_forall. intros H b Hb. apply H, sort_blocks_In, Hb. Qed.
+  Lemma isort_Forall (P : blk -> Prop) l : Forall P l -> Forall P (isort l).
+  Proof. rewrite !Forall_forall. intros H b Hb. apply H, isort_In, Hb. Qed.
 
   Lemma drop_read_Forall (P : blk -> Prop) : forall bs, Forall P bs -> Forall P (drop_read bs).
   Proof.
@@ -131,35 +251,40 @@ Section Size.
       destruct (chunk size m3 mv) as [m mv']. intros [= <-]. split; assumption.
   Qed.
 
-  Lemma merge_inv fuel fast s s' : sinv s -> merge fuel size fast s = Some s' -> sinv s'.
+  Lemma merge_inv fuel fast s s' : sinv s -> (length (s_blocks s) <= 20)%nat ->
+    merge fuel size fast s = Some s' -> sinv s'.
   Proof.
-    intros Hs. unfold merge. destruct (_ && _ && _); [intros [= <-]; exact Hs|].
-    apply combine_inv. destruct Hs as [Hb Hm]. split; cbn; [apply sort_blocks_Forall; exact Hb|exact Hm].
+    intros Hs Hsm. unfold merge. destruct (_ && _ && _); [intros [= <-]; exact Hs|].
+    rewrite sort_blocks_small by exact Hsm.
+    apply combine_inv. destruct Hs as [Hb Hm]. split; cbn; [apply isort_Forall; exact Hb|exact Hm].
   Qed.
 
-  Lemma next_inv fuel fast s s' : sinv s -> next fuel size fast s = Some (Some s') -> sinv s'.
+  Lemma next_inv fuel fast s s' : sinv s -> (length (s_blocks s) <= 20)%nat ->
+    next fuel size fast s = Some (Some s') -> sinv s'.
   Proof.
-    intros Hs. unfold next.
+    intros Hs Hsm. unfold next.
     set (s1 := match s_merged s with [] => s | _ :: m => mkst (s_blocks s) m (s_mv s) end).
     assert (H1 : sinv s1).
     { subst s1. destruct Hs as [Hb Hm]. destruct (s_merged s) as [|x m] eqn:E; [split; [exact Hb|rewrite E; exact Hm]|].
       split; cbn; [exact Hb|inversion Hm; auto]. }
+    assert (Hsm1 : (length (s_blocks s1) <= 20)%nat) by (subst s1; destruct (s_merged s); exact Hsm).
     clearbody s1.
-    assert (Hstep2 : forall s2, sinv s2 ->
+    assert (Hstep2 : forall s2, sinv s2 -> (length (s_blocks s2) <= 20)%nat ->
       (if nonempty (s_blocks s2)
        then match merge fuel size fast s2 with
             | None => None
             | Some s3 => if nonempty (s_merged s3) || nonempty (s_mv s3) then Some (Some s3) else Some None
             end
        else Some None) = Some (Some s') -> sinv s').
-    { intros s2 H2. destruct (nonempty (s_blocks s2)); [|discriminate].
+    { intros s2 H2 Hsm2. destruct (nonempty (s_blocks s2)); [|discriminate].
       destruct (merge fuel size fast s2) as [s3|] eqn:E; [|discriminate].
       destruct (_ || _); [|discriminate]. intros [= <-]. eapply merge_inv; eauto. }
     destruct (nonempty (s_merged s1)); [intros [= <-]; exact H1|].
-    destruct (nonempty (s_mv s1)); [|apply Hstep2; exact H1].
+    destruct (nonempty (s_mv s1)); [|apply Hstep2; assumption].
     destruct (merge fuel size fast s1) as [s3|] eqn:E; [|discriminate].
-    pose proof (merge_inv _ _ _ _ H1 E) as H3.
-    destruct (_ || _); [intros [= <-]; exact H3|apply Hstep2; exact H3].
+    pose proof (merge_inv _ _ _ _ H1 Hsm1 E) as H3.
+    pose proof (merge_length size _ _ _ _ Hsm1 E) as Hl3.
+    destruct (_ || _); [intros [= <-]; exact H3|apply Hstep2; [exact H3|lia]].
   Qed.
 
   Lemma read_head_okb s : sinv s -> okb (read_head s).
@@ -169,21 +294,23 @@ Section Size.
   Qed.
 
   Lemma run_key_sizes fast : forall fuel s out,
-    sinv s -> run_key fuel size fast s = Some out -> Forall okb out.
+    sinv s -> (length (s_blocks s) <= 20)%nat -> run_key fuel size fast s = Some out -> Forall okb out.
   Proof.
-    induction fuel as [|f IH]; intros s out Hs; cbn [run_key]; [discriminate|].
+    induction fuel as [|f IH]; intros s out Hs Hsm; cbn [run_key]; [discriminate|].
     destruct (next (S f) size fast s) as [[s'|]|] eqn:E; [|intros [= <-]; constructor|discriminate].
-    pose proof (next_inv _ _ _ _ Hs E) as Hs'.
+    pose proof (next_inv _ _ _ _ Hs Hsm E) as Hs'.
+    pose proof (next_length size _ _ _ _ Hsm E) as Hl'.
     destruct (run_key f size fast s') as [o|] eqn:E2; [|discriminate].
-    intros [= <-]. constructor; [apply read_head_okb; exact Hs'|eapply IH; eauto].
+    intros [= <-]. constructor; [apply read_head_okb; exact Hs'|eapply IH; eauto; lia].
   Qed.
 End Size.
 
 (** every block of the initial state is an input block *)
 Lemma run_key_block_size {V} (size : nat) (fast : bool) (bs : list (blk V)) fuel out :
+  (length bs <= 20)%nat ->
   run_key fuel size fast (mkst bs [] []) = Some out ->
   Forall (fun b => In (b_vals b) (map b_vals bs) \/ (length (b_vals b) <= size)%nat) out.
 Proof.
-  intro H. eapply (run_key_sizes (map b_vals bs) size fast); [|exact H].
+  intros Hsm H. apply (run_key_sizes (map b_vals bs) size fast fuel (mkst bs [] []) out); [|exact Hsm|exact H].
   split; cbn; [|constructor]. apply Forall_forall. intros b Hb. unfold orig. apply in_map. exact Hb.
 Qed.
